@@ -112,8 +112,8 @@ CHECKS = {
           "temporary (volatile) variables as documented; a read-only variable is neither modified nor unset and the refused "
           "operation changes nothing; leaving a context removes exactly that context's entries (locals and temporary assignments "
           "vanish, outer variables persist); other variables are untouched. The step covers histories of any length over such "
-          "sets. Which command kinds push/pop which contexts and the environment passed to programs are outside (command "
-          "execution; CString formatting)."),
+          "sets. Which command kinds push/pop which contexts and the environment passed to programs (env_c_strings: built, no "
+          "answer in 15 min per arm) are outside."),
     design_ref="DESIGN.md §0 and §6 C16",
     note=TRUST_KANI + " Transforms T1c (HashMap / per-name Vec -> heap-light stand-ins with the same contract, one boxed cell per record) and T7v (Location stored in a Variable -> unit stand-in)."),
 }
